@@ -157,16 +157,16 @@ def conditionOnX (ops : HLinkOps α) (be : Backend α) (x : Arr N (Vec Dx α)) :
 
 /-! ## expected covariance, moment matching -/
 
-/-- `integrate_Sigma_x(p_x)`, `[1, Dy, Dy]`.  The code contracts
-`einsum("ab,b->ab", A_k, D_int)` with `D_int` of length `R*Dk`; this is well-shaped for `R = 1`
-and, through size-one broadcasting of `b`, for `Dk = 1` (where the `R` expected noise values are
-**summed**).  Both are `Σ_j A_k[:, j % Dk] D_int[j] A_k[:, j % Dk]ᵀ`; other shapes raise (driver). -/
-def integrateSigmaX (ops : HLinkOps α) (be : Backend α) (p : PdfV R Dx α) : Arr 1 (Mat Dy Dy α) :=
+/-- `integrate_Sigma_x(p_x)`, `[R, Dy, Dy]`: `_integrate_noise_diagonal(p_x).reshape((R, Dk))` (layout `r*Dk + k`
+of the product of `p_x` with the `Dk` link factors), then per component
+`Sigma + Σ_k A_k[:, k] D_int[r, k] A_k[:, k]ᵀ`, symmetrised. -/
+def integrateSigmaX (ops : HLinkOps α) (be : Backend α) (p : PdfV R Dx α) : Arr R (Mat Dy Dy α) :=
   let Dint := ops.integrateNoiseDiagonal be c p
   let Ak := c.Ak
-  let AD : Mat Dy (R * Dk) α := tab2 fun i j => Ak i (unflatR j) * Dint j
-  let S : Mat Dy Dy α := tab2 fun i l => c.Sigma 0 i l + vsum fun j => AD i j * Ak l (unflatR j)
-  tab fun _ => tab2 fun i l => half * (S i l + S l i)
+  tab fun r =>
+    let AD : Mat Dy Dk α := tab2 fun i k => Ak i k * Dint (flat r k)
+    let S : Mat Dy Dy α := tab2 fun i l => c.Sigma 0 i l + vsum fun k => AD i k * Ak l k
+    tab2 fun i l => half * (S i l + S l i)
 
 /-- the affine form `M x + b` (shared coefficients) -/
 def meanForm : AffForm R Dy Dx α := ⟨tab fun _ => c.M 0, tab fun _ => c.b 0⟩
@@ -179,7 +179,7 @@ def getExpectedMoments (ops : HLinkOps α) (be : Backend α) (p : PdfV R Dx α) 
   let v := (p.toMeasure.intView be).2
   let f : AffForm R Dy Dx α := c.meanForm
   let Q := v.integrateQuadOuter f f
-  let Eyy : Arr R (Mat Dy Dy α) := tab3 fun r i j => Sint 0 i j + Q r i j
+  let Eyy : Arr R (Mat Dy Dy α) := tab3 fun r i j => Sint r i j + Q r i j
   -- Eyy - mu_y[:, None] * mu_y[:, :, None]
   let Sy : Arr R (Mat Dy Dy α) := tab3 fun r i j => Eyy r i j - muY r j * muY r i
   (muY, tab3 fun r i j => half * (Sy r i j + Sy r j i))
